@@ -125,6 +125,9 @@ func init() {
 			{Name: "negated first block starts from a cleared all-blocks bit", File: "felix/rules/policy.go",
 				Old: "r.maybeAppendInitialRule(r.markAllBlocksPass)", New: "r.maybeAppendInitialRule(0)",
 				Expect: "C08.blockbit/markAllBlocksPass/matchBlockBuilder.AppendNegatedCIDRMatchBlock/ClearMark/never"},
+			{Name: "final rule tests the accept mark instead of the all-blocks-pass bit", File: "felix/rules/policy.go",
+				Old: "match = match.MarkSingleBitSet(matchBlockBuilder.markAllBlocksPass)", New: "match = match.MarkSingleBitSet(r.MarkAccept)",
+				Expect: "C08.scratch/final-test"},
 			{Name: "nft DestIPSet matches on saddr", File: "felix/nftables/match_builder.go",
 				Old: "fmt.Sprintf(\"<IPV> daddr @%s\", LegalizeSetName(name))", New: "fmt.Sprintf(\"<IPV> saddr @%s\", LegalizeSetName(name))", Expect: "C08.nft/direction/nftables.nftMatch.DestIPSet"},
 		},
@@ -306,7 +309,9 @@ func runC08(c *Ctx) {
 	c.Rule("C08.actions", "E-TABLE", "action→mark table of CombineMatchAndActionsForProtoRule: allow→MarkAccept+return, pass→MarkPass+return, deny→MarkDrop+deny action; full match on the SetMark rule; unknown→panic", 16)
 	c.Rule("C08.nft", "E-CONST", "per back end: Not* matcher fragment = positive sibling's fragment with exactly one negation operator; Source*/Dest* siblings differ", 67)
 
+	m.ev.flagGuards = true // wiring is decided per feasible call string, incl. helpers specialised by a bool flag
 	reached := c08Wiring(m)
+	m.ev.flagGuards = false
 	c08Cover(m, reached)
 	c08Scratch(m)
 	c08Actions(m)
@@ -683,22 +688,50 @@ func c08Scratch(m *c08Model) {
 	a, b := srcOf["markAllBlocksPass"], srcOf["markThisBlockPass"]
 	c.Check(len(a) == 1 && len(b) == 1 && a[0] != b[0], "C08.scratch/init/distinct", sites[0],
 		"the two block bits come from different Config fields", fmt.Sprintf("all-blocks bit from %v and this-block bit from %v are not two distinct scratch marks", a, b))
-	// (c) the final rule tests markAllBlocksPass when blocks are used.
+	// (c) the final rule tests markAllBlocksPass when blocks are used.  The test
+	// is located by what it does, not by where it sits: any MarkSingleBitSet on
+	// a MatchCriteria, in any function instance of the rendering's closure
+	// outside the builder's own methods, whose operand derives from a field of
+	// the builder (the caller of the builder consuming its result).
 	n := 0
-	for _, cs := range callsIn(m.root, false, func(f *types.Func) bool { return f.Name() == "MarkSingleBitSet" }) {
-		if !c08IsInvokeOf(cs.Common(), c08MatchIface) {
-			continue
+	var bad []string
+	site := p.Pos(m.root.Pos())
+	c08Instances(m.root, m.inRP, func(ctx *c08Ctx) {
+		if recvTypeNameOfFn(ctx.fn) == "matchBlockBuilder" {
+			return
 		}
-		n++
-		f := ev.facts(cs.Common().Args[0], rootCtx)
-		ok := len(f.Fields) == 1 && f.Fields["matchBlockBuilder.markAllBlocksPass"] && !f.Unknown
-		lits := ev.ruleLiterals(cs.Instr.(*ssa.Call), rootCtx, func(cc *ssa.CallCommon) bool { return c08IsInvokeOf(cc, c08MatchIface) })
-		c.Check(ok && len(lits) > 0, "C08.scratch/final-test", p.Pos(cs.Instr.Pos()),
+		for _, cs := range callsIn(ctx.fn, false, func(f *types.Func) bool { return f.Name() == "MarkSingleBitSet" }) {
+			if !c08IsInvokeOf(cs.Common(), c08MatchIface) || len(cs.Common().Args) == 0 {
+				continue
+			}
+			f := ev.facts(cs.Common().Args[0], ctx)
+			fromBuilder := false
+			for q := range f.Fields {
+				if strings.HasPrefix(q, "matchBlockBuilder.") {
+					fromBuilder = true
+				}
+			}
+			if !fromBuilder {
+				continue
+			}
+			if n == 0 {
+				site = p.Pos(cs.Instr.Pos())
+			}
+			n++
+			ok := len(f.Fields) == 1 && f.Fields["matchBlockBuilder.markAllBlocksPass"] && !f.Unknown
+			lits := ev.ruleLiterals(cs.Instr.(*ssa.Call), ctx, func(cc *ssa.CallCommon) bool { return c08IsInvokeOf(cc, c08MatchIface) })
+			if !ok || len(lits) == 0 {
+				bad = append(bad, fmt.Sprintf("in context %s the final rule tests %v (unknown=%v), reaches %d Rule literal(s); it must test the all-blocks-pass bit", ctx, f.fieldList(), f.Unknown, len(lits)))
+			}
+		}
+	})
+	switch {
+	case n == 0:
+		c.Violate("C08.scratch/final-test", site, "no function in the closure of ProtoRuleToIptablesRules adds MarkSingleBitSet(<builder>.markAllBlocksPass) to the final match: block results are ignored")
+	default:
+		c.Check(len(bad) == 0, "C08.scratch/final-test", site,
 			"final rule match tests matchBlockBuilder.markAllBlocksPass and reaches a Rule literal",
-			fmt.Sprintf("final rule tests %v (unknown=%v), reaches %d Rule literal(s); it must test the all-blocks-pass bit", f.fieldList(), f.Unknown, len(lits)))
-	}
-	if n == 0 {
-		c.Violate("C08.scratch/final-test", p.Pos(m.root.Pos()), "ProtoRuleToIptablesRules never adds MarkSingleBitSet(markAllBlocksPass) to the final match: block results are ignored")
+			strings.Join(c08Uniq(bad), " | "))
 	}
 }
 
